@@ -375,11 +375,16 @@ where
         cx.exec_plugin(AutoDerivePlugin::new(
             Arc::from(["#[derive(PartialOrd)]".into()]),
             |ty| {
-                let mut ty = ty;
-                while let ty::Vec(_ty) = &ty.kind {
-                    ty = _ty;
+                // a hash container anywhere inside the member type (also behind a btree container or an Arc)
+                fn holds_hash_container(ty: &middle::ty::Ty) -> bool {
+                    match &ty.kind {
+                        ty::Map(_, _) | ty::Set(_) => true,
+                        ty::Vec(t) | ty::BTreeSet(t) | ty::Arc(t) => holds_hash_container(t),
+                        ty::BTreeMap(k, v) => holds_hash_container(k) || holds_hash_container(v),
+                        _ => false,
+                    }
                 }
-                if matches!(ty.kind, ty::Map(_, _) | ty::Set(_)) {
+                if holds_hash_container(ty) {
                     PredicateResult::No
                 } else {
                     PredicateResult::GoOn
@@ -390,11 +395,16 @@ where
         cx.exec_plugin(AutoDerivePlugin::new(
             Arc::from(["#[derive(Hash, Eq, Ord)]".into()]),
             |ty| {
-                let mut ty = ty;
-                while let ty::Vec(_ty) = &ty.kind {
-                    ty = _ty;
+                // a hash container or a float anywhere inside the member type (also behind a btree container or an Arc)
+                fn holds_unhashable(ty: &middle::ty::Ty) -> bool {
+                    match &ty.kind {
+                        ty::Map(_, _) | ty::Set(_) | ty::F64 | ty::F32 => true,
+                        ty::Vec(t) | ty::BTreeSet(t) | ty::Arc(t) => holds_unhashable(t),
+                        ty::BTreeMap(k, v) => holds_unhashable(k) || holds_unhashable(v),
+                        _ => false,
+                    }
                 }
-                if matches!(ty.kind, ty::Map(_, _) | ty::Set(_) | ty::F64 | ty::F32) {
+                if holds_unhashable(ty) {
                     PredicateResult::No
                 } else {
                     PredicateResult::GoOn
